@@ -13,7 +13,10 @@ use vlib::rng::Rng;
 use vlib::trace::TraceWriter;
 use vlib::{Args, Value, json};
 
-fn perturb(rng: &mut Rng) {
+fn perturb(rng: &mut Rng, pace_us: u64) {
+    if pace_us > 0 {
+        std::thread::sleep(std::time::Duration::from_micros(rng.below(pace_us)));
+    }
     match rng.below(10) {
         0..=2 => std::thread::yield_now(),
         3..=5 => {
@@ -34,6 +37,7 @@ fn worker<P: Pat>(
     n: usize,
     seed: u64,
     iters: u64,
+    pace_us: u64,
     config: &Config,
     name: &ServiceName,
 ) -> Vec<(u64, Value)> {
@@ -56,7 +60,7 @@ fn worker<P: Pat>(
             _ => Op::List,
         };
         do_op::<P>(sh, &mut evs, t, &mut actor, &op, name, &set.cfgs, config, &dflt);
-        perturb(&mut rng);
+        perturb(&mut rng, pace_us);
     }
     for slot in 0..SLOTS {
         if actor.slots[slot].is_some() {
@@ -89,6 +93,10 @@ pub fn run<P: Pat>(args: &Args) -> Value {
     let procs = args.flag("procs");
     let timeout = args.num("timeout", 20_000);
     let tag = args.get_or("tag", "");
+    let slow = args.num("slow", 0);
+    let slow_us = args.num("slow-us", 1500);
+    let slow_iters = args.num("slow-iters", iters / 20 + 1);
+    let pace_us = args.num("pace-us", 2000);
     let seed = vlib::seed_from_env();
     let mut out = TraceWriter::create(&args.get("out").expect("--out"));
     let mode = if procs { "procs" } else { "conc" };
@@ -117,7 +125,7 @@ pub fn run<P: Pat>(args: &Args) -> Value {
                 let hs: Vec<_> = (0..threads)
                     .map(|t| {
                         let (sh, config, name, s) = (&sh, &config, &name, wseeds[t]);
-                        sc.spawn(move || worker::<P>(sh, t, threads, s, iters, config, name))
+                        sc.spawn(move || worker::<P>(sh, t, threads, s, iters, 0, config, name))
                     })
                     .collect();
                 for h in hs {
@@ -132,11 +140,27 @@ pub fn run<P: Pat>(args: &Args) -> Value {
             let mut children = vec![];
             for t in 0..threads {
                 let evfile = format!("{droot}.child{t}.ndjson");
-                let ch = std::process::Command::new(&exe)
+                // "slow motion": the first `slow` children run under strace with a delay injected
+                // before and after every resource-creating / removing system call, i.e. they are
+                // paused after each step of the protocol while the other processes run freely
+                let is_slow = (t as u64) < slow;
+                let child_iters = if is_slow { slow_iters } else { iters };
+                let mut cmd = if is_slow {
+                    let mut c = std::process::Command::new("strace");
+                    let set = "openat,fchmod,write,unlink,ftruncate";
+                    c.args(["-f", "-qq", "-o", "/dev/null", "-e", &format!("trace={set}"), "-e",
+                            &format!("inject={set}:delay_enter={slow_us}:delay_exit={slow_us}")]);
+                    c.arg(&exe);
+                    c
+                } else {
+                    std::process::Command::new(&exe)
+                };
+                let ch = cmd
                     .args([
                         "conc-child", "--pat", P::NAME, "--root", &droot, "--prefix", &prefix, "--shared",
                         &shared_path, "--t", &t.to_string(), "--n", &threads.to_string(), "--wseed",
-                        &wseeds[t].to_string(), "--iters", &iters.to_string(), "--timeout", &timeout.to_string(),
+                        &wseeds[t].to_string(), "--iters", &child_iters.to_string(), "--timeout", &timeout.to_string(),
+                        "--pace-us", &(if slow > 0 && !is_slow { pace_us } else { 0 }).to_string(),
                         "--events", &evfile,
                     ])
                     .spawn()
@@ -177,7 +201,7 @@ pub fn child<P: Pat>(args: &Args) {
     let n = args.num("n", 1) as usize;
     let config = util::make_config(&droot, &prefix, args.num("timeout", 20_000));
     let name: ServiceName = "c06/svc".try_into().unwrap();
-    let evs = worker::<P>(&sh, t, n, args.num("wseed", 1), args.num("iters", 100), &config, &name);
+    let evs = worker::<P>(&sh, t, n, args.num("wseed", 1), args.num("iters", 100), args.num("pace-us", 0), &config, &name);
     let mut out = TraceWriter::create(&args.get("events").expect("--events"));
     for (g, ev) in evs {
         out.emit(&json!({"g":g,"ev":ev}));
